@@ -440,6 +440,12 @@ func (c *Collection) AddDocument(id uint64, vector []float64, metadata []byte) {
 		ID:       id,
 	}
 
+	// Overwriting an existing document: take its old point out of the index
+	// first, otherwise the id would be listed twice in every tree.
+	if old, err := c.getDocument(id); err == nil {
+		c.lshTree.removePoint(id, old.Vector)
+	}
+
 	// Encode the document
 	encodedVector := encodeDocument(doc, c.Quantization)
 
